@@ -140,9 +140,7 @@ def handle (st : DStore.DState) (l : Line) : Option (DStore.DState × Except Str
       let plog := match res.after, res.call with
         | true, some (.scrape req) =>
           (match handleScrape (opsOf st0) hooks.preScr st0 req with
-           | (_, .ok (ctx, resp)) =>
-             let r := runScr hooks.postScr req 0 ctx resp
-             r.1 ++ (match r.2 with | .ok _ => [hooks.postScr.length] | .error _ => [])
+           | (_, .ok _) => List.range (hooks.postScr.length + 1)   -- every post-hook runs, then the built-in one (D28)
            | _ => [])
         | _, _ => plog0
       let tx := Udp.slice pkt 12 16
